@@ -189,6 +189,7 @@ class Ctx:
         s.notes = {}
         s.rnd = random.Random(rnd_seed)   # same seed on both sides
         s.nontrivial = False
+        s.counting = True     # calls made while False are set-up, not counted as non-trivial cases
 
     def call(s, op, *args, suite=None, impl_only=False):
         if impl_only and s.side == "model":
@@ -197,7 +198,7 @@ class Ctx:
                 for a in args]
         st, pl = s.proc.call(suite or s.suite, op, toks)
         s.trace.append({"op": op, "suite": suite or s.suite, "args": toks, "status": st,
-                        "payload": pl, "impl_only": impl_only})
+                        "payload": pl, "impl_only": impl_only, "counted": s.counting})
         return Res(st, pl)
 
     def expect(s, cond, what):
@@ -280,6 +281,8 @@ def run_case(pair, case):
     res["panics"] = [t for t in ci.trace if t["status"] in ("PANIC", "TIMEOUT", "CRASH")]
     res["calls"] = len(ci.trace)
     res["nontrivial"] = ci.nontrivial
+    res["nontrivial_sigs"] = {hashlib.sha1(repr((t["suite"], t["op"], t["args"])).encode()).digest()[:10]
+                              for t in ci.trace if t.get("counted")}
     res["verdicts_impl"] = [err_class(None if t["status"] == "OK" else (t["payload"] if t["status"] == "ERR" else t["status"])) for t in ci.trace]
     res["ops"] = [t["op"] for t in ci.trace]
     res["sig"] = hashlib.sha1(repr((suite, fn.__name__, [(t["op"], t["args"]) for t in ci.trace])).encode()).hexdigest()
